@@ -25,9 +25,12 @@
 (* past / future / duplicate nonces are not labels: they follow from the   *)
 (* nonce and the sender's state nonce at the moment of processing.         *)
 (*                                                                         *)
-(* FilterBuiltins = FALSE is the code as written (a pool transaction with  *)
-(* a built-in name is packed like any other); TRUE is the intended design  *)
-(* (the generator leaves such transactions out).                           *)
+(* FilterBuiltins = TRUE is the code (since the fix "do not pack pool       *)
+(* transactions that carry a built-in function name"): such a pool         *)
+(* transaction is dropped before the cost gate.  FALSE is the code as      *)
+(* found: it was packed like any other, next to the generator's own        *)
+(* built-in transaction, and the verifier rejected the block               *)
+(* (MC_BlockGen_asfound_demo.cfg exhibits it).                             *)
 (***************************************************************************)
 EXTENDS Integers, Sequences, FiniteSets, TLC
 
